@@ -77,8 +77,6 @@ class Tokenizer:
             return False
         if tok.type in {Token.NL, Token.COMMENT, Token.WS}:
             return True
-        if tok.type == Token.ERRORTOKEN and tok.string.isspace():
-            return True
         if tok.type == Token.NEWLINE and self._tokens and self._tokens[-1].type == Token.NEWLINE:
             return True
         return False
